@@ -23,7 +23,7 @@ from rig.machine_control.packets import SCPPacket
 
 from .. import tlc as tlcmod
 from ..core import MachineryError
-from ..env.net import VirtualNet, ScheduleExhausted, DidNotTerminate, tick
+from ..env.net import VirtualNet, ScheduleExhausted, DidNotTerminate
 
 OK, SUM, BUSY = 0x80, 0x82, 0x8d
 FATALS = (0x81, 0x83, 0x84, 0x85, 0x86, 0x87, 0x88, 0x89, 0x8a, 0x8b, 0x8c, 0x8e, 0x8f)
@@ -46,14 +46,18 @@ class Codec(object):
                          arg1=cmd, arg2=burst, arg3=txid, data=b"").bytestring
 
 
-def run_connection(spec, fates, default=None, overs=(), lifetime=True, label="", max_selects=4000):
+def run_connection(spec, fates, default=None, overs=(), lifetime=True, label="", max_selects=None):
     """One SCPConnection, the calls of spec["bursts"] one after the other, against a fresh virtual network.
     Returns the trace record.  ScheduleExhausted propagates (the small-scope enumeration extends the schedule)."""
+    if max_selects is None:
+        # "always terminates", observed: a call needs about 3 select() calls per transmission and one per datagram
+        # read (measured maximum on the unchanged tree: see evidence, max_selects_per_call); the bound is over 10 times that
+        max_selects = 200 + 40 * max(b["n"] for b in spec["bursts"]) * spec["tries"]
     net = VirtualNet(Codec, fates=fates, default=default, overs=overs, lifetime=lifetime, max_selects=max_selects)
     ev = net.events
     net.install(scp_connection)
     try:
-        conn = SCPConnection("virtual-host", n_tries=spec["tries"], timeout=float(spec["t0"]))
+        conn = SCPConnection("virtual-host", n_tries=spec["tries"], timeout=net.seconds(spec["t0"]))
         if spec["seqmod"] != REAL_SEQMOD:
             conn.seq = scp_connection.seqs(mask=spec["seqmod"] - 1)
         for b, bs in enumerate(spec["bursts"], 1):
@@ -62,30 +66,30 @@ def run_connection(spec, fates, default=None, overs=(), lifetime=True, label="",
             def make_cb(c):
                 def cb(packet):
                     p = SCPPacket.from_bytestring(packet, n_args=3)
-                    ev.append(["callback", c, p.arg2, p.arg1, p.cmd_rc, tick(net.now)])
+                    ev.append(["callback", c, p.arg2, p.arg1, p.cmd_rc, net.tick(net.now)])
                 return cb
             calls = [scpcall(1, 2, 3, 7, arg1=c, arg2=b, arg3=0, data=b"", callback=make_cb(c),
-                             timeout=float(bs["extra"][c - 1])) for c in range(1, bs["n"] + 1)]
+                             timeout=net.seconds(bs["extra"][c - 1])) for c in range(1, bs["n"] + 1)]
             via = bs.get("via", "list")
             try:
                 if via == "scp":
                     # send_scp: the reply handed back to the caller is what a callback would have received
-                    r = conn.send_scp(256, 1, 2, 3, 7, arg1=1, arg2=b, arg3=0, timeout=float(bs["extra"][0]))
-                    ev.append(["callback", 1, r.arg2, r.arg1, r.cmd_rc, tick(net.now)])
+                    r = conn.send_scp(256, 1, 2, 3, 7, arg1=1, arg2=b, arg3=0, timeout=net.seconds(bs["extra"][0]))
+                    ev.append(["callback", 1, r.arg2, r.arg1, r.cmd_rc, net.tick(net.now)])
                 elif via == "iter":
                     conn.send_scp_burst(256, bs["window"], (c for c in calls))
                 else:
                     conn.send_scp_burst(256, bs["window"], calls)
             except DidNotTerminate:
-                ev.append(["raise", "DidNotTerminate", -1, -1, tick(net.now)])
+                ev.append(["raise", "DidNotTerminate", -1, -1, net.tick(net.now)])
                 break
             except Exception as ex:
                 pkt = getattr(ex, "packet", None)
                 c = pkt.arg1 if pkt is not None and pkt.arg1 is not None else -1
                 bb = pkt.arg2 if pkt is not None and pkt.arg2 is not None else -1
-                ev.append(["raise", type(ex).__name__, c, bb, tick(net.now)])
+                ev.append(["raise", type(ex).__name__, c, bb, net.tick(net.now)])
             else:
-                ev.append(["return", tick(net.now)])
+                ev.append(["return", net.tick(net.now)])
         ev.append(["end"])
     finally:
         net.uninstall()
@@ -127,10 +131,13 @@ def explore(spec, alpha, overs=(), label="small", limit=None):
     only when the code actually transmits another datagram"""
     stack = [[]]
     n = 0
+    # no call may transmit more than (commands x tries) datagrams: beyond that the schedule is not extended any
+    # further (every further request is lost), so the enumeration is finite whatever the code does
+    cap = sum(b["n"] for b in spec["bursts"]) * spec["tries"] + 1
     while stack:
         fates = stack.pop()
         try:
-            tr = run_connection(spec, fates, default=None, overs=overs, label=label)
+            tr = run_connection(spec, fates, default=None if len(fates) < cap else ["lost"], overs=overs, label=label)
         except ScheduleExhausted:
             for f in reversed(alpha):
                 stack.append(fates + [f])
@@ -326,6 +333,14 @@ def tally(chk, tr):
     chk.count("replies of an earlier call read during a later call",
               sum(1 for k, e in enumerate(ev) if e[0] == "recv" and e[4] != cur_burst(ev, k)))
     chk.count("replies retired by the lifetime assumption", tr["expired"])
+    k = 0
+    for e in ev:
+        if e[0] == "burst":
+            k = 0
+        elif e[0] == "select":
+            k += 1
+            if k > chk.info.get("max select() calls in one call", 0):
+                chk.info["max select() calls in one call"] = k
 
 
 def cur_burst(ev, k):
@@ -432,9 +447,11 @@ def run(chk):
                            "datagram is due, may overshoot by 0-2 ticks, and a fruitless zero-time-out select repeated "
                            "at the same instant costs one tick (the clock cannot stand still for ever)")
     chk.assumptions.append("the sequence space is shrunk with rig's own seqs(mask=...) parameter and is always larger "
-                           "than the window; times are whole ticks (1 tick = 1.0 s of rig's clock)")
-    chk.assumptions.append("'always terminates' is observed as: at most 4000 select() calls per call on virtual time "
-                           "(the slowest legitimate call needs < 400), and proved for the rules by TLC (Terminates)")
+                           "than the window; times are whole ticks (1 tick = 0.25 s of rig's clock, exact in floats)")
+    chk.assumptions.append("'always terminates' is observed as: at most 200 + 40 x commands x tries select() calls per "
+                           "call on virtual time (more than 10 times what the slowest call on the unchanged tree needs, "
+                           "see informational 'max select() calls in one call'), and proved for the rules by TLC "
+                           "(Terminates under weak fairness)")
 
 
 # ------------------------------------------------------------------------------------------ selftest
